@@ -129,14 +129,20 @@ pub fn eloop_triage(clause: &str, detail: &str, kernel_backend: bool, links_foll
     if kernel_backend {
         return None;
     }
-    if links_followed > 20 {
+    // the documented divergence needs more links than the kernel allows (40) and fewer than the
+    // emulated budget (128); 21..40 links with ELOOP on one side is the kernel's own unstable band
+    if links_followed > 40 && links_followed < 128 {
         return Some("symlink-budget-differs".to_string());
+    }
+    if links_followed > 20 && links_followed <= 40 {
+        return None;
     }
     Some(clause.to_string())
 }
 
 pub fn links_followed(out: &crate::sup::RunOut, rec: &crate::sup::OpRecord) -> usize {
-    out.trace.iter().filter(|e| e.step >= rec.begin_step && e.step <= rec.end_step && e.thread == rec.thread && e.nr == libc::SYS_readlinkat).count()
+    // links of the tree only (the library also reads procfs links, for its '..' checks)
+    out.trace.iter().filter(|e| e.step >= rec.begin_step && e.step <= rec.end_step && e.thread == rec.thread && e.nr == libc::SYS_readlinkat && matches!(e.dir.as_ref().map(|d| &d.prov), Some(crate::sup::Prov::Tree(..)) | Some(crate::sup::Prov::TreeUnknown))).count()
 }
 
 pub fn uni_from_extra(b: &Batch) -> UniCfg {
